@@ -27,7 +27,7 @@ import numpy as np
 
 from ..cert import DM, chol_factor, frac_json
 from ..common import CorrespondenceBroken
-from ..exact import Pure, call_rng, describe, present_nd
+from ..exact import Pure, call_rng, describe, present_nd, strict_fp_call
 from ..pool import Result, run_pool, worker_driver, fold
 from .. import qgen
 
@@ -57,7 +57,11 @@ RULE = ("qubit and qutrit maps given by Choi matrices built from exact data by t
         "perfect square, at least two non-zero entries), psi_dims in {[2,2,2],[2,2,3],[2,3,2],[3,2,2]} (thorough also [3,3,2],[2,3,3]), levels k = 1, 2 (thorough 3), four call forms (k positional / keyword, solver_option and "
         "verbosity_option given or not); points: the feasible point of fos_feasible_product, a random Hermitian point with entries in Z[i]/4, controls trace-doubled / not-psd / not-symmetric (k >= 2) / not-ppt (k = 1, dR <= dA); "
         "guards: trace 3/4, 2 psi - psi', a non-Hermitian perturbation, two and four dimensions, the maximally mixed state, a 9/25 : 16/25 mixture, and combinations with a wrong number of dimensions; every case non-trivial "
-        "(a guards case when the model's verdicts are decided)")
+        "(a guards case when the model's verdicts are decided). "
+        "Wave-5 hardening: stream cf/sequence - on local dimensions 6 and 7 (Choi matrices of 1296 / 2401 entries) the calls F(a,a), F(a,b), F(b,a) in one process for a / b = p * (identity | phase flip of one "
+        "middle level) + (1-p) * completely depolarising, p in {1/4, 1/2, 3/4}, either channel first, real or complex dtype: F(a,a) = 1, F(a,b) <= fidelity of the normalised Choi states, symmetric; "
+        "stream strict-fp - diamond_distance (equal channels, pairs), channel_fidelity (equal channels), completely_bounded_trace_norm (zero map, differences, Hermitian maps, CP maps, channels) and "
+        "completely_bounded_spectral_norm evaluated a second time with NumPy's error state set to raise for invalid / divide / overflow (harness.exact.strict_fp_call): same value as in the default state")
 ASSUMPTIONS = [
     "toqito computes with the float Choi matrices it is given; the instance certified is their exact dyadic image (J1 - J2 is the float difference, exact image taken after the subtraction)",
     "tolerance 2e-5 on picos/CVXOPT-solved values (completely_bounded_trace_norm and callers); 1e-3 on channel_fidelity: SCS is called with eps=1e-7 but stops at its iteration limit "
@@ -929,6 +933,111 @@ def work_cf_dim(task, res: Result):
         res.violation(f"channel_fidelity raises {v} on two depolarizing channels of local dimension {d} (expected 1.0)", {"function": "channel_fidelity", "args": desc, "exception": v, "local_dim": d, "theorem": "chanFid_self"})
     elif st == "ok" and abs(v - 1) > TAU_CF:
         res.violation(f"channel_fidelity of two equal depolarizing channels of dimension {d} = {v:.6f}, expected 1", {"function": "channel_fidelity", "args": desc, "impl": v, "certified": [1.0, 1.0], "local_dim": d, "theorem": "chanFid_self"})
+
+
+def _phase_flip_pair(d, level, p):
+    """a = p id + (1-p) completely depolarising, b = p (phase flip of one level) + (1-p) completely depolarising: full-rank channels whose Choi matrices
+    (toqito's convention: vec(K) vec(K)^H summed) differ only in the rows / columns of the flipped level"""
+    om = np.eye(d).reshape(-1, 1)
+    flip = np.eye(d)
+    flip[level, level] = -1
+    v = flip.reshape(-1, 1)
+    dep = np.eye(d * d) / d
+    return p * (om @ om.T) + (1 - p) * dep, p * (v @ v.T) + (1 - p) * dep
+
+
+def work_cf_sequence(task, res: Result):
+    """defined for every local dimension, as a FUNCTION of its arguments: a sequence of calls in one process on local dimension 6 / 7 (Choi matrices of
+    1296 / 2401 entries) - F(a, a), F(a, b), F(b, a) (or starting from b) for two different full-rank channels that agree except on one middle level.
+    F(x, x) = 1 (chanFid_self); F(a, b) <= fidelity of the normalised Choi states (cf_le_choi_fidelity / chanFid_le_choi_fidelity); symmetric (chanFid_symm).
+    A value carried over from an earlier call with other arguments (a cache keyed by a lossy rendering of large arrays) shows as F(a, b) = 1 > bound."""
+    from toqito.channel_metrics import channel_fidelity
+    warnings.filterwarnings("ignore")
+    d, level, p = task["d"], task["level"], task["p"]
+    a, b = _phase_flip_pair(d, level, p)
+    if task["first"] == "b":
+        a, b = b, a
+    if task["complex"]:
+        a, b = a.astype(complex), b.astype(complex)
+    desc = {"fn": "cf-sequence", "d": d, "level": level, "p": p, "first": task["first"], "complex": task["complex"], "id": task["id"], "pres": task.get("pres"),
+            "sequence": "F(a,a); F(a,b); F(b,a)  with a, b = p*(identity | phase flip of |level>) + (1-p)*completely depolarising" + (" exchanged" if task["first"] == "b" else "")}
+    P = Presenter(task.get("pres"), res, desc)
+    bound = root_fidelity(a / d, b / d)
+    res.case(desc, True, f"cf/sequence/d{d}")
+    vals = []
+    for key, x, y in (("seq-aa", a, a.copy()), ("seq-ab", a, b), ("seq-ba", b, a)):
+        st, v = P.call(key, channel_fidelity, x, y)
+        if st == "numfail":
+            res.count("solver-numerical-failure")
+            return
+        if st == "raise":
+            res.violation(f"channel_fidelity raises {v} in the call {key[4:]} of the sequence on local dimension {d}", {"function": "channel_fidelity", "args": desc, "exception": v, "local_dim": d})
+            return
+        vals.append(v)
+    faa, fab, fba = vals
+    info = {"function": "channel_fidelity", "args": desc, "values": {"F(a,a)": faa, "F(a,b)": fab, "F(b,a)": fba}, "choi_fidelity": bound, "local_dim": d}
+    res.count("relation/cf-sequence")
+    if abs(faa - 1) > TAU_CF:
+        res.violation(f"channel_fidelity(a, a) = {faa:.6f} on local dimension {d}, expected 1", {**info, "theorem": "chanFid_self"})
+    for nm, v in (("a, b", fab), ("b, a", fba)):
+        if v > bound + TAU_CF + CLOSED:
+            res.violation(f"channel_fidelity({nm}) = {v:.6f} exceeds the fidelity of the normalised Choi states {bound:.6f} (local dimension {d}, a / b = {p} * identity / phase flip of level {level} "
+                          f"+ {1 - p} * completely depolarising; called after channel_fidelity(a, a) = {faa:.6f} in the same process)", {**info, "theorem": "cf_le_choi_fidelity / chanFid_le_choi_fidelity"})
+            return
+    if abs(fab - fba) > 2 * TAU_CF:
+        res.violation(f"channel_fidelity not symmetric on local dimension {d}: F(a,b) = {fab:.6f}, F(b,a) = {fba:.6f}", {**info, "theorem": "chanFid_symm"})
+
+
+def _strict_one(res, name, mats, desc):
+    """one call in the default floating-point error state and once more under harness.exact.StrictFP (invalid / divide / overflow raise, the corresponding
+    RuntimeWarnings are errors): the value must not depend on that global state"""
+    import toqito.channel_metrics as cm
+    fn = getattr(cm, name)
+    st0, v0 = _call(fn, *[m.copy() for m in mats])
+    res.case(dict(desc, call=name), True, f"strict-fp/{name}/{desc['what']}")
+    if st0 != "ok":
+        res.count(f"strict-fp/default-state-{st0}/{name}")       # judged by the stream of that function
+        return
+    st1, v1 = strict_fp_call(fn, *[m.copy() for m in mats])
+    tol = 2 * TAU_CF if name == "channel_fidelity" else 2 * TAU_CB
+    info = {"function": name, "args": dict(desc, call=name), "default_state": v0, "check": "strict-fp",
+            "theorem": "(the value the property's theorems give this input - dd_self_zero / chanFid_self / cb norm definitions - is a function of the arguments; NumPy's error state is not an argument)"}
+    if st1 != "ok":
+        if v1.split(":")[0] in ("ArithmeticError", "ZeroDivisionError"):
+            res.count("strict-fp/solver-numerical-failure")
+            return
+        res.violation(f"{name}: the value depends on NumPy's floating-point error state - with np.seterr(invalid='raise', divide='raise', over='raise') the call raises {v1} "
+                      f"where the default state returns {v0:.6f} ({desc['what']}, d={desc['d']}, instance {desc['kind']} #{desc['id']}: Choi matrices in the record)", {**info, "exception": v1})
+    elif abs(float(np.real(v1)) - v0) > tol:
+        res.violation(f"{name}: {float(np.real(v1)):.8f} under np.seterr(invalid='raise', ...) but {v0:.8f} in the default state ({desc['what']}, d={desc['d']})", {**info, "impl": float(np.real(v1))})
+    else:
+        res.count(f"strict-fp/same-value/{name}")
+
+
+def work_strict_fp(task, res: Result):
+    """strict-fp stream: the four distance measures on the instance kinds where exact zeros occur (equal channels: difference exactly zero, fidelity one) and on
+    ordinary pairs / maps, each evaluated in the default error state and under StrictFP"""
+    warnings.filterwarnings("ignore")
+    d = task["d"]
+    base = {"fn": "strict-fp", "d": d, "id": task["id"], "kind": task["kind"]}
+    if "K1" in task or "J1" in task:
+        J1, J2 = (choi_of(task["K1"]), choi_of(task["K2"])) if "K1" in task else (task["J1"], task["J2"])
+        _strict_one(res, "diamond_distance", [J1, J1], dict(base, what="equal-channels", J1=J1, J2=J1))
+        _strict_one(res, "channel_fidelity", [J1, J1], dict(base, what="equal-channels", J1=J1, J2=J1))
+        _strict_one(res, "completely_bounded_trace_norm", [J1 - J1], dict(base, what="zero-map", J=J1 - J1))
+        if task.get("pair", True):
+            _strict_one(res, "diamond_distance", [J1, J2], dict(base, what="pair", J1=J1, J2=J2))
+            _strict_one(res, "completely_bounded_spectral_norm", [J1 - J2], dict(base, what="difference", J=J1 - J2))
+    else:
+        J = task["J"] if "J" in task else choi_of(task["K"])
+        _strict_one(res, "completely_bounded_trace_norm", [J], dict(base, what=task["kind"], J=J))
+        _strict_one(res, "completely_bounded_spectral_norm", [J], dict(base, what=task["kind"], J=J))
+        _strict_one(res, "diamond_distance", [J, J], dict(base, what="equal-maps", J1=J, J2=J))
+
+
+def work_cf_dim_seq_strict(task, res: Result):
+    """dispatcher, so that the three small streams share one pool phase"""
+    return work_strict_fp(task, res) if task.get("strict_fp") else work_cf_sequence(task, res) if "level" in task else work_cf_dim(task, res)
 
 
 def work_fos(task, res: Result):
@@ -2018,7 +2127,26 @@ def run(ctx, model_ok=True):
              "kinds": ["real-unitary", "complex-unitary"], "full": False, "p1": 0.25, "p2": 0.25}
         cf_tasks.insert(0, t)
     run_pool(ctx, work_cf, seeded(cf_tasks))
-    run_pool(ctx, work_cf_dim, seeded([{"d": 5}] + ([] if quick else [{"d": 6}])))
+    dim_tasks = seeded([{"d": 5}] + ([] if quick else [{"d": 6}]))
+    # call sequences on local dimensions 6 and 7 (own generator: the streams around keep their inputs); corpus first: d = 6, level 2, p = 1/2
+    qrs = rng.spawn(1)[0]
+    seq = [{"d": 6, "level": 2, "p": 0.5, "first": "a", "complex": False, "id": 0}, {"d": 7, "level": 3, "p": 0.5, "first": "a", "complex": False, "id": 1}]
+    for i in range(1 if quick else 12):
+        dd = 6 + (i + int(qrs.integers(2))) % 2
+        seq.append({"d": dd, "level": int(qrs.integers(1, dd - 1)), "p": float(qrs.choice([0.25, 0.5, 0.75])), "first": str(qrs.choice(["a", "b"])), "complex": bool(qrs.integers(2)), "id": 2 + i})
+    # strict-fp stream: corpus = the library's own equal-channel examples (dephasing, depolarizing, identity), then seeded instances of every kind
+    from toqito.channels import dephasing, depolarizing
+    sfp = [{"d": 2, "kind": "corpus-dephasing", "id": -1, "J1": np.asarray(dephasing(2), dtype=float), "J2": np.asarray(depolarizing(2), dtype=float)},
+           {"d": 3, "kind": "corpus-identity", "id": -2, "J1": choi_of([np.eye(3)]), "J2": np.asarray(depolarizing(3), dtype=complex), "pair": False}]
+    for i in range(14 if quick else 160):
+        t = gen_cb_task(qrs, i, quick)
+        t["pair"] = i % 2 == 0
+        sfp.append(t)
+    for t in sfp:
+        t["strict_fp"] = True
+    for t in seq:
+        t["pres"] = int(qrs.integers(1, 2 ** 31))      # own presentation stream: the presentations of the later streams are as before
+    run_pool(ctx, work_cf_dim_seq_strict, seq + dim_tasks + sfp)      # one pool phase (longest tasks first)
     fos = []
     for i in range(3 if quick else 12):
         dims = [2, 2, 2]
@@ -2074,6 +2202,11 @@ def replay(ctx, rec):
         work_fos_program({"dims": a["dims"], "k": a["k"], "vecs": a["vecs"], "other": a.get("other"), "seed": a["seed"], "form": a.get("form", 0), "id": a.get("id", 0), "pres": a.get("pres")}, res)
     elif a.get("fn") == "fos-guards":
         work_fos_guards({"kind": a["kind"], "dims": a["dims"], "vecs": a["vecs"], "vecs2": a["vecs2"], "id": a.get("id", 0), "pres": a.get("pres")}, res)
+    elif a.get("fn") == "cf-sequence":
+        work_cf_sequence({k_: a[k_] for k_ in ("d", "level", "p", "first", "complex", "id", "pres")}, res)
+    elif a.get("fn") == "strict-fp":
+        mats = [_arr(a["J1"]), _arr(a["J2"])] if "J1" in a else [_arr(a["J"])]
+        _strict_one(res, a["call"], mats, {k_: (_arr(v_) if k_ in ("J", "J1", "J2") else v_) for k_, v_ in a.items() if k_ != "call"})
     elif a.get("fn") == "cf-path":
         work_cf_path({"s1": tuple(a["s1"]), "s2": tuple(a["s2"]), "seed": a["seed"]}, res)
     elif fn == "channel_fidelity" and "J1" in a:
